@@ -2,6 +2,7 @@ import Proofs.Tokens
 import Proofs.Pagination
 import Proofs.PagApi
 import Proofs.PagLater
+import Proofs.HeadlinesAll
 /-! C09 — page pagination: token text round-trips for every (prefix index, path); paths built from
     L/C/R steps are injective and read back digit by digit. The traversal is strictly ascending; resuming from any item returns exactly the later items
     (Proofs/Pagination). The lift over whole histories (`Shape` of every reachable state) is Proofs/PageSet. -/
@@ -116,5 +117,29 @@ theorem C09_resume_after_run {s : State} {t : T} (h : Shape s t) (hi : Inv s t) 
   Traph.C09_resume_after_run h hi hlive ops hop hwf hok hall crawledOnly count hc pre x post hG
 
 end Episodes
+
+section EveryHistory
+open Traph State Pag Layout
+/-! ### every history (Proofs/Discipline, SinceClear, ReachableAll, HeadlinesAll) -/
+
+/-- EVERY HISTORY, `clear` and `reopen` included, no request assumed away: the only hypotheses are that byte strings cut into at least one stem (`OpWf`), rule anchors are whole LRUs (`rulesCanonical`, `Canon`) and the caller re-supplies on `reopen` the rules the index carries, as the API requires (`Disciplined`); `clear` acts as a reset (`sinceClear`).  -/
+theorem C09_all {s : State} (hs : Reachable s)
+    (ps : List Bytes) (all : List (Bytes × Bool)) (hall : s.webentityPages ps = .ok all)
+    (crawledOnly : Bool) (count : Nat) (hc : 1 ≤ count) :
+    (∃ chunks : List PageChunk,
+      PageEpisode s ps crawledOnly count none chunks ∧
+      episodePages s ps crawledOnly count ((pageSeq s ps crawledOnly).length / count + 1) none = some chunks ∧
+      chunks.flatMap (·.pages) = ps.flatMap (pagesOfPrefix s crawledOnly) ∧
+      (ps.flatMap (pagesOfPrefix s crawledOnly)).Perm (if crawledOnly then all.filter (·.2) else all) ∧
+      (∀ ch ∈ chunks, ch.count = ch.pages.length ∧ ch.crawled = crawledCount ch.pages) ∧
+      (∀ ch ∈ chunks.dropLast, ch.done = false ∧ ch.pages.length = count ∧ ch.token.isSome = true) ∧
+      (∃ l, chunks.getLast? = some l ∧ l.done = true ∧ l.token = none ∧ l.pages.length ≤ count)) ∧
+    (∀ p ∈ ps, ((pagesOfPrefix s crawledOnly p).map (·.1)).Pairwise (fun a b => lexLt a b = true)) ∧
+    (∀ pre x post, gItems s (enumFrom 0 ps) = pre ++ x :: post → ∀ count', 1 ≤ count' →
+      ∃ chunks, PageEpisode s ps crawledOnly count' (some (buildToken x.1 x.2.2.2)) chunks ∧
+        chunks.flatMap (·.pages) = post.flatMap (fun y => pgOut s crawledOnly (y.2.1, y.2.2.1))) :=
+  Traph.C09_all hs ps all hall crawledOnly count hc
+
+end EveryHistory
 
 end Traph.Props
